@@ -1,7 +1,7 @@
 import ScVerif.Base.Line
 import ScVerif.C07.Flat
 import ScVerif.C07.Rim
-import ScVerif.C07.Events
+import ScVerif.C07.EventVals
 import ScVerif.C07.Rim3
 /-!
 Driver handler for C07 (stateful).  One op per line; the answer lists every message that crossed
@@ -14,10 +14,14 @@ reference (crossing order) and of every caller-owned message.
   cupd <id> <k> <umask> <resetmask> <before> <after> <expect|-> <flags>   cdel <id> <expect|-> <flags>
   cget <id> <rmask>   clist <rmask>   cpull <rmask> <uo>   cpullid <id> <rmask> <uo>   cclose <i>
   audit
-  ev reset | ev sub <lossy> <mask> | ev subi <mask> (backpressure subscriber with the include filter `token is even`) | ev send <ADD|UPDATE|REMOVE|REPLACE> <id> <old|-> <new|-> | ev audit
-  ev vsub <lossy> <mask> | ev vsend <new>     (subscribers / writes of a resource.Value; events print as UPDATE,0,-,<new>)
-     (event objects, Events.lean: after a send every backpressure subscriber forwards, every lossy one merges in;
-      the answer lists, per backpressure subscriber, `#<canonical event ref>:<event>` of what its consumer received)
+  ev reset | ev sub <lossy> <mask> | ev subi <mask> / ev subli <mask> (backpressure / lossy subscriber with the include filter `token is even`)
+  ev send <ADD|UPDATE|REMOVE|REPLACE> <id> <old|-> <new|->   (values named by their tokens: the new one is stored in a new message cell, the old one looked up)
+  ev poll <i>   (the consumer of the lossy Collection subscriber i takes the event its Pull goroutine holds: `#<ref>:<event>` or `-`)
+  ev vsub <lossy> <mask> <seed> | ev vsend <new> | ev vpoll <i>     (subscribers / writes / lossy consumers of a resource.Value; events print as UPDATE,0,-,<new>; vpoll answers `seed` first for a subscriber that asked for one)
+  ev audit      (`seen=<contents of every event seen>|vals=<which message objects they carry, numbered by identity>`)
+     (event objects and their values, Events.lean + EventVals.lean: after a send everything runs until it blocks — every backpressure subscriber forwards,
+      every lossy one merges in / drops the older pointer and its Pull goroutine pumps; the answer to a send lists, per backpressure subscriber,
+      `#<canonical event ref>:<event>` of what its consumer received)
 
 expect = `-` | msg | `chk:<field>:<n>:<FP|IA>` (named WithExpectedCheck); msg = `a,b,c,d`; mask = `-` (nil) | `0` (empty) | letters of `abcd`; callbacks: `-` | `add:<f>` | `set:<f>:<n>`;
 flags: letters of `c` (create if absent) `x` (expect absent) `m` (allow missing) or `-`.
